@@ -28,6 +28,8 @@ def main():
                      + (" (round 2: asked for two changes of different kinds)" if not d.endswith("-a") else ""))
         if not m.get("needs_to_manifest") and d in needs:
             m["needs_to_manifest"] = needs[d]
+        if d in needs.get("_miss", {}):
+            m["miss_reason"] = needs["_miss"][d]
         log = os.path.join(p, "confirm.log")
         if os.path.exists(log):
             r = re.findall(r"RESULT id=\S+ apply=(\d+) base_tests='([^']*)' mut_tests='([^']*)' demo_unchanged=(\d+) demo_changed=(\d+)", open(log).read())
